@@ -370,11 +370,10 @@ class Agent(dbus.service.Object):
     def _apply_primary(self, ctr):
         ''' Touch up primary block content from defaults.
         '''
-        if 'receive' in ctr.actions:
-            # a bundle being forwarded keeps the primary block it came with
-            return
-
         pri_blk = ctr.bundle.primary
+        if 'receive' in ctr.actions or pri_blk.bundle_flags & PrimaryBlock.Flag.IS_FRAGMENT:
+            # a bundle being forwarded, and a fragment made of any bundle, keeps the primary block it came with
+            return
 
         if pri_blk.source is None:
             pri_blk.source = self._config.node_id
